@@ -301,8 +301,10 @@ theorem getPattern_ml {s : Src} (hs : AsciiThenBoundary s) (L : Nat) (p : List (
       cases hm : isMultiline p
       · exact absurd (excesses_single p hm) hex
       · rw [hm, hs1] at hexc
-        simp only [Bool.not_true, Bool.false_or] at hexc
-        exact ciAfter_zero _ none _ trivial (by simpa using hexc)
+        simp only [Bool.not_true, Bool.false_or, Bool.or_eq_true, List.isEmpty_iff] at hexc
+        rcases hexc with hexc | hexc
+        · exact absurd hexc hex
+        · exact ciAfter_zero _ none _ trivial (by simpa using hexc)
     obtain ⟨phs, tr, hloop, hrel⟩ := mlLoop hs (elemLevel L p) p hpl false m (q + 1) q'
       ⟨[], none, none, .initialLineStart, none⟩ _ hml hlast (fun h => absurd h hne) hLm (fun h => by cases h)
       (by simp [mlRole]) rfl hcfin (bnd_succ hs hat.1 (by decide)) hat.2
@@ -340,12 +342,15 @@ theorem getPattern_ml {s : Src} (hs : AsciiThenBoundary s) (L : Nat) (p : List (
     have hsbb : skipBlankBlock s (q + 1) = (q + 1, 0) :=
       skipBlankBlock_line s (q + 1) k b (at_spaces s _ k hline.1) hline.2 b1 b2 b3
     rw [hm] at hexc
-    simp only [Bool.not_true, Bool.false_or] at hexc
-    have hcfin : ciAfter (4 * (L + 1)) none (excesses true p) = some (4 * (L + 1)) :=
-      ciAfter_zero _ none _ trivial (by simpa using hexc)
+    simp only [Bool.not_true, Bool.false_or, Bool.or_eq_true, List.isEmpty_iff] at hexc
+    have hcfin : excesses true p ≠ [] → ciAfter (4 * (L + 1)) none (excesses true p) = some (4 * (L + 1)) := by
+      intro hex
+      rcases hexc with hexc | hexc
+      · exact absurd hexc hex
+      · exact ciAfter_zero _ none _ trivial (by simpa using hexc)
     obtain ⟨phs, tr, hloop, hrel⟩ := mlLoop hs (L + 1) p hpl true m (q + 1) q'
       ⟨[], none, none, .lineStart, none⟩ _ hml hlast (fun h => absurd h hne) (Or.inl (by omega)) (fun _ => by omega)
-      (by simp [mlRole]) rfl (fun _ => hcfin) (bnd_succ hs hat.1 (by decide)) hat.2
+      (by simp [mlRole]) rfl hcfin (bnd_succ hs hat.1 (by decide)) hat.2
       (by rw [show q + 1 + (elemsText (L + 1) true p).length + 1 =
             q + ((elemsText (L + 1) true p).length + 1) + 1 by omega]; exact hf)
       (by omega)
